@@ -56,4 +56,5 @@ def jobs(tier, seed):
                                "would-block or reset" if tcp else "datagram all-or-nothing, would-block or reset")))
     # the truncation rule (TC on UDP => retried over TCP unless IGNTC) lives in process_answer: same jobs as C05
     J += mjobs.answer_jobs(tier, owner=False)
+    J += mjobs.write_event_jobs(tier)
     return J
